@@ -128,6 +128,84 @@ pub trait DeepRead {
         let p = self as *const Self as *const u8 as usize;
         o.push((p.wrapping_sub(base), std::mem::size_of_val(self)));
     }
+    /// applies an in-place container operation (histories of C11-C14); "bad" when not applicable
+    fn hop(&mut self, _op: &HOp) -> String {
+        "bad".into()
+    }
+}
+
+/// In-place operations of the history suites.
+#[derive(Clone, Debug)]
+pub enum HOp {
+    Push(Spec),
+    Pop,
+    PushSlice(Vec<Spec>),
+    Extend(Vec<Spec>),
+    Truncate(usize),
+    Clear,
+    Remove(usize),
+    SwapRemove(usize),
+    Resize(usize, Spec),
+    Set(usize, Spec),
+    PushStr(Vec<u8>),
+    PushChar(u32),
+    EditVec(usize, Box<HOp>),
+    EditAssign(usize, Spec),
+}
+
+pub fn parse_hop(toks: &[String], pos: &mut usize) -> HOp {
+    assert_eq!(toks[*pos], "(");
+    *pos += 1;
+    let head = toks[*pos].clone();
+    *pos += 1;
+    let num = |toks: &[String], pos: &mut usize| -> usize {
+        let v = parse_num(&toks[*pos]) as usize;
+        *pos += 1;
+        v
+    };
+    let specs = |toks: &[String], pos: &mut usize| -> Vec<Spec> {
+        let mut v = Vec::new();
+        while toks[*pos] != ")" {
+            v.push(parse_spec(toks, pos));
+        }
+        v
+    };
+    let op = match head.as_str() {
+        "push" => HOp::Push(parse_spec(toks, pos)),
+        "pop" => HOp::Pop,
+        "pushslice" => HOp::PushSlice(specs(toks, pos)),
+        "extend" => HOp::Extend(specs(toks, pos)),
+        "truncate" => HOp::Truncate(num(toks, pos)),
+        "clear" => HOp::Clear,
+        "remove" => HOp::Remove(num(toks, pos)),
+        "swapremove" => HOp::SwapRemove(num(toks, pos)),
+        "resize" => {
+            let n = num(toks, pos);
+            HOp::Resize(n, parse_spec(toks, pos))
+        }
+        "set" => {
+            let n = num(toks, pos);
+            HOp::Set(n, parse_spec(toks, pos))
+        }
+        "pushstr" => {
+            let h = toks[*pos].clone();
+            *pos += 1;
+            HOp::PushStr(hex_to_bytes(&h))
+        }
+        "pushchar" => HOp::PushChar(num(toks, pos) as u32),
+        "editvec" => {
+            let n = num(toks, pos);
+            HOp::EditVec(n, Box::new(parse_hop(toks, pos)))
+        }
+        "editassign" => {
+            let n = num(toks, pos);
+            HOp::EditAssign(n, parse_spec(toks, pos))
+        }
+        other => panic!("bad op {}", other),
+    };
+    assert_eq!(toks[*pos], ")");
+    *pos += 1;
+    op
 }
 
 /// Construction of a sized value from a spec.
@@ -320,7 +398,7 @@ unsafe impl<'a, T: FromSpec + Flat, const N: usize> Emplacer<[T; N]> for Dyn<'a>
     }
 }
 
-impl<T: DeepRead + Flat + Sized, L: Flat + Length> DeepRead for FlatVec<T, L> {
+impl<T: DeepRead + FromSpec + Clone + Flat + Sized, L: Flat + Length> DeepRead for FlatVec<T, L> {
     fn deep(&self, o: &mut String) {
         write!(o, "(c{:#x}", self.capacity()).unwrap();
         let len = self.len();
@@ -337,6 +415,46 @@ impl<T: DeepRead + Flat + Sized, L: Flat + Length> DeepRead for FlatVec<T, L> {
         o.push((p.wrapping_sub(base), std::mem::size_of_val(self)));
         for x in self.as_slice().iter() {
             x.addrs(base, o);
+        }
+    }
+    fn hop(&mut self, op: &HOp) -> String {
+        let done = |b: bool| if b { "done".to_string() } else { "refused".to_string() };
+        match op {
+            HOp::Push(s) => done(self.push(T::from_spec(s)).is_ok()),
+            HOp::Pop => done(self.pop().is_some()),
+            HOp::PushSlice(v) => {
+                let items: Vec<T> = v.iter().map(T::from_spec).collect();
+                done(self.push_slice(&items).is_ok())
+            }
+            HOp::Extend(v) => {
+                self.extend_until_full(v.iter().map(T::from_spec));
+                done(true)
+            }
+            HOp::Truncate(n) => {
+                self.truncate(*n);
+                done(true)
+            }
+            HOp::Clear => {
+                self.clear();
+                done(true)
+            }
+            HOp::Remove(i) => {
+                self.remove(*i);
+                done(true)
+            }
+            HOp::SwapRemove(i) => {
+                self.swap_remove(*i);
+                done(true)
+            }
+            HOp::Resize(n, s) => {
+                self.resize(*n, T::from_spec(s));
+                done(true)
+            }
+            HOp::Set(i, s) => {
+                self[*i] = T::from_spec(s);
+                done(true)
+            }
+            _ => "bad".into(),
         }
     }
 }
@@ -376,6 +494,18 @@ impl<L: Flat + Length> DeepRead for FlatString<L> {
         }
         o.push(')');
     }
+    fn hop(&mut self, op: &HOp) -> String {
+        let done = |b: bool| if b { "done".to_string() } else { "refused".to_string() };
+        match op {
+            HOp::PushStr(s) => done(self.push_str(core::str::from_utf8(s).unwrap()).is_ok()),
+            HOp::PushChar(c) => done(self.push(char::from_u32(*c).unwrap()).is_ok()),
+            HOp::Clear => {
+                self.clear();
+                done(true)
+            }
+            _ => "bad".into(),
+        }
+    }
 }
 unsafe impl<'a, L: Flat + Length> Emplacer<FlatString<L>> for Dyn<'a> {
     unsafe fn emplace_unchecked(self, b: &mut [u8]) -> Result<&mut FlatString<L>, Error> {
@@ -388,7 +518,10 @@ unsafe impl<'a, L: Flat + Length> Emplacer<FlatString<L>> for Dyn<'a> {
     }
 }
 
-impl<T: DeepRead + Flat + ?Sized, L: Flat + Length> DeepRead for FlexVec<T, L> {
+impl<T: DeepRead + Flat + ?Sized, L: Flat + Length> DeepRead for FlexVec<T, L>
+where
+    for<'b> Dyn<'b>: Emplacer<T>,
+{
     fn deep(&self, o: &mut String) {
         o.push_str("(n0");
         let mut n = 0;
@@ -406,6 +539,38 @@ impl<T: DeepRead + Flat + ?Sized, L: Flat + Length> DeepRead for FlexVec<T, L> {
         o.push((p.wrapping_sub(base), std::mem::size_of_val(self)));
         for x in self.iter() {
             x.addrs(base, o);
+        }
+    }
+    fn hop(&mut self, op: &HOp) -> String {
+        match op {
+            HOp::Push(s) => match self.push(Dyn(s)) {
+                Ok(_) => "done".into(),
+                Err(e) => format!("err:{:?}", e.kind),
+            },
+            HOp::Pop => match self.pop() {
+                Ok(()) => "done".into(),
+                Err(_) => "refused".into(),
+            },
+            HOp::Truncate(n) => {
+                self.truncate(*n);
+                "done".into()
+            }
+            HOp::Clear => {
+                self.clear();
+                "done".into()
+            }
+            HOp::EditVec(i, inner) => match self.iter_mut().nth(*i) {
+                Some(x) => x.hop(inner),
+                None => panic!("no such item"),
+            },
+            HOp::EditAssign(i, s) => match self.iter_mut().nth(*i) {
+                Some(x) => match x.assign_in_place(Dyn(s)) {
+                    Ok(_) => "done".into(),
+                    Err(e) => format!("err:{:?}", e.kind),
+                },
+                None => panic!("no such item"),
+            },
+            _ => "bad".into(),
         }
     }
 }
@@ -503,6 +668,7 @@ pub trait Ops {
     fn default(&self, off: usize, bytes: &[u8]) -> String;
     /// IO suite (`io_suite.rs`): `kind` is recv / send / arecv / asend / sys
     fn io(&self, kind: &str, args: &[&str]) -> String;
+    fn hist(&self, off: usize, bytes: &[u8], init: &Spec, ops: &[HOp]) -> String;
 }
 
 pub struct TypeOps<T: ?Sized>(pub core::marker::PhantomData<fn(&T)>);
@@ -713,4 +879,48 @@ where
     fn io(&self, kind: &str, args: &[&str]) -> String {
         crate::io_suite::run_io::<T>(kind, args)
     }
+    fn hist(&self, off: usize, bytes: &[u8], init: &Spec, ops: &[HOp]) -> String {
+        // a history is one case: the steps are printed one after another, separated by " | "
+        let mut a = Arena::new(off, bytes, 0x55);
+        let mut out = String::new();
+        let r = guarded(|| res_s(&T::new_in_place(a.slice_mut(), Dyn(init)).map(|_| ())));
+        write!(out, "init={}", r).unwrap();
+        if r != "ok" {
+            return out;
+        }
+        out.push_str(&hist_obs::<T>(&a));
+        for op in ops {
+            let r = guarded(|| {
+                let x = unsafe { T::from_mut_bytes_unchecked(a.slice_mut()) };
+                x.hop(op)
+            });
+            write!(out, " | res={}", r).unwrap();
+            let obs = hist_obs::<T>(&a);
+            let valid = obs.contains(" val=ok ");
+            out.push_str(&obs);
+            if !a.guards_intact() {
+                out.push_str(" OOB-WRITE");
+                break;
+            }
+            if !valid {
+                break;
+            }
+        }
+        out
+    }
+}
+
+fn hist_obs<T: Probe + ?Sized>(a: &Arena) -> String {
+    let bytes = a.slice();
+    let mut o = String::new();
+    let val = guarded(|| res_s(&T::validate(bytes)));
+    write!(o, " val={} ", val).unwrap();
+    if val == "ok" {
+        let x = unsafe { T::from_bytes_unchecked(bytes) };
+        write!(o, "view={} size={}", deep_s(x), guarded(|| format!("ok:{}", x.size()))).unwrap();
+    } else {
+        o.push_str("view=- size=-");
+    }
+    write!(o, " buf={}", bytes_to_hex(bytes)).unwrap();
+    o
 }
